@@ -22,7 +22,9 @@ same block); which exception class the front end rejects with.
 
 from __future__ import annotations
 
+import gc
 import itertools
+import linecache
 
 from ..engine.runner import BaseCheck, ShardResult
 from ..engine import progen_c15 as G
@@ -245,9 +247,12 @@ class Check(BaseCheck):
         out = []
         for j in range(len(progs)):
             if j in mod._R:
-                out.append((None, mod._R[j]))
+                e = mod._R[j]
+                e.__traceback__ = None          # do not keep the front end's frames alive
+                out.append((None, e))
             else:
                 out.append((getattr(mod, f'f{j}'), None))
+        mod._R.clear()
         return out
 
     # ---- judge one program ------------------------------------------------
@@ -340,21 +345,41 @@ class Check(BaseCheck):
             r.count('inconclusive')
             k = sorted(other)[0]
             r.outcomes['accepted/other-exception:' + k] += 1
-            r.notes.append(f'INCONCLUSIVE accepted program raised {k} (not an unbound-name failure): {other[k][1][:80]}')
+            note = f'INCONCLUSIVE accepted program raised {k} (not an unbound-name failure): {other[k][1][:80]}'
+            if note not in r.notes and len(r.notes) < 10:
+                r.notes.append(note)
 
-    def run_programs(self, r: ShardResult, progs):
-        for lo in range(0, len(progs), BATCH):
-            chunk = progs[lo:lo + BATCH]
-            for prog, (fn, rej) in zip(chunk, self.load_batch(chunk)):
+    @staticmethod
+    def release():
+        """Nothing generated may outlive its batch: the default interpreter memoises every compiled
+        FuncDef (whose foreign environment pins the whole generated module), and `inspect` leaves the
+        module text in `linecache`."""
+        from fpy2.interpret import get_default_interpreter
+        cache = getattr(get_default_interpreter(), 'func_cache', None)
+        if isinstance(cache, dict):
+            cache.clear()
+        linecache.clearcache()
+        gc.collect()
+
+    def run_programs(self, r: ShardResult, indices, P):
+        """`indices` is a range into the lazily indexable program sequence `P`."""
+        for lo in range(0, len(indices), BATCH):
+            chunk = [P[i] for i in indices[lo:lo + BATCH]]
+            loaded = self.load_batch(chunk)
+            for j, prog in enumerate(chunk):
+                fn, rej = loaded[j]
+                loaded[j] = None
                 self.judge(r, prog, fn, rej)
+                del fn, rej
+            del loaded, chunk
+            self.release()
 
     def run_shard(self, shard) -> ShardResult:
         r = ShardResult()
         self._sampled = set()
         n, start, step = shard
         P = self.space.programs(n)
-        progs = [P[i] for i in range(start, len(P), step)]
-        self.run_programs(r, progs)
+        self.run_programs(r, range(start, len(P), step), P)
         return r
 
     def selfcheck(self):
